@@ -41,13 +41,15 @@ def paths_of(f: tuple):
         return (f[1], f[2])
     if k in ("lb",):
         return (f[1],)
-    if k in ("inv", "eqlen", "haskey", "member", "snap", "alias"):
+    if k in ("inv", "eqlen", "haskey", "member", "snap", "alias", "islen"):
         return (f[1], f[2])
     if k in ("lenge",):
         return (f[1],)
     if k in ("parses", "conv"):
         return (f[2],)
     if k == "elem":
+        return (f[1],)
+    if k in ("clsval", "constval"):
         return (f[1],)
     if k == "elemall":
         return (f[1],)
